@@ -295,6 +295,39 @@ Theorem C05_exact_member_sound_partial :
     root_ok re_match D s' xv = true.
 Proof. exact exact_member_sound. Qed.
 
+
+(* ================================================================== 5. the transfer theorem at
+   ANY depth.  [viol re D s v] (Check/Exact.v, an inductive predicate over schema/instance paths):
+   [v] violates a constraint of the enforced kinds that [s] states at some position reached through
+   "$ref", declared properties, array elements, tuple positions, typed additionalProperties values,
+   the non-null branch of a nullable union, or the tag of a (internally / adjacently) tagged oneOf -
+   what the eight single-constraint mutators produce.  If the validator accepts the document's
+   definitions against the type space ([exact_all], evaluated on the REAL IR and instantiated in the
+   kernel for every explored document by the check), every such instance is rejected by the
+   generated type, for every fuel.
+   Side conditions carried by [viol] (notes/C05.md): the violating node is not one of serde's
+   alternative wire forms ([alt_free]: struct from an array; {"V": null} - finding C05-F2); below the
+   root the walk does not pass through the value null (finding C05-F3).
+   _partial in one respect only: the tag transfer of EXTERNALLY tagged enums (the single key of
+   {"Variant": payload}) and the constraints inside the variants of tagged / untagged unions have no
+   [viol] constructor - [exact] evaluates them ([ext_branch_x]) and C05_tag_enforced_external covers
+   the type side, but the lifting is not proved. *)
+Theorem C05_exact_sound_partial :
+  forall (re_match native_ok : ustring -> ustring -> bool) (D : defs) (T : space) (A : list (ustring * id)),
+    exact_all re_match D T A = true ->
+    forall r t s, In (r, t) A -> resolve_ref D r = Some s ->
+    forall v, viol re_match D s v ->
+    forall f, de re_match native_ok T f t v = None.
+Proof. exact exact_sound. Qed.
+
+(* the same for one (schema, type) pair whose references are discharged by [exact_all] *)
+Theorem C05_exact_deep_sound :
+  forall (re_match native_ok : ustring -> ustring -> bool) (D : defs) (T : space) (A : list (ustring * id)),
+    exact_all re_match D T A = true ->
+    forall s v, viol re_match D s v ->
+    forall t f, exact re_match D T A s t = true -> de re_match native_ok T f t v = None.
+Proof. exact exact_deep_sound. Qed.
+
 (* ================================================================== witnesses *)
 Definition noset := mkSettings None [] false [].
 Definition nofn : ustring -> ustring -> bool := fun _ _ => false.
@@ -472,3 +505,26 @@ Example C05_member_example :
   accepts 3%N (JObj [(u "a", JStr (u "abcd"))]) = false /\
   accepts 3%N (JObj [(u "a", JStr (u "abc"))]) = true.
 Proof. vm_compute. repeat split; try reflexivity. left. reflexivity. Qed.
+
+(* the any-depth theorem is not vacuous: a member two levels down (definition -> property) that is
+   one scalar value too long, and an extra key / a missing member at the root *)
+Definition D_ex : defs := [(u "O", S_closed)].
+Definition A_ex : list (ustring * id) := [(u "O", 3%N)].
+
+Example C05_deep_example :
+  exact_all nofn D_ex T_ex A_ex = true /\
+  viol nofn D_ex S_closed (JObj [(u "a", JStr (u "abcd"))]) /\
+  viol nofn D_ex S_closed (JObj [(u "a", JStr (u "x")); (u "zz", JInt 1)]) /\
+  (forall f, de nofn nofn T_ex f 3%N (JObj [(u "a", JStr (u "abcd"))]) = None).
+Proof.
+  assert (E : exact_all nofn D_ex T_ex A_ex = true) by (vm_compute; reflexivity).
+  assert (V : viol nofn D_ex S_closed (JObj [(u "a", JStr (u "abcd"))])).
+  { eapply (V_prop nofn D_ex S_closed (u "a") S_str13); try (vm_compute; reflexivity).
+    - left. reflexivity.
+    - discriminate.
+    - apply V_here; vm_compute; reflexivity. }
+  split; [exact E|]. split; [exact V|]. split.
+  - apply V_here; vm_compute; reflexivity.
+  - intros f. eapply (C05_exact_sound_partial nofn nofn D_ex T_ex A_ex E (u "O") 3%N S_closed);
+      [left; reflexivity | vm_compute; reflexivity | exact V].
+Qed.
